@@ -88,4 +88,20 @@ namespace C06
 def unflatten : List Nat → List α → List (List α)
   | [], _ => []
   | n :: ns, xs => xs.take n :: unflatten ns (xs.drop n)
+/-! ### numeric encodings by offset (`DigitEncoding`, `QualityEncoding`, `CigarEncoding` of `bionumpy.encodings`)
+`_encode` is `bytes - min_code` and `_decode` is `digits + min_code`, both on uint8 arrays, i.e. modulo 256. -/
+
+def offsetEncode (m b : Nat) : Nat := (b + 256 - m % 256) % 256
+def offsetDecode (m d : Nat) : Nat := (d + m) % 256
+
+/-- what the real encoding does to each of the 256 bytes (generated), next to its `min_code` -/
+structure OffsetEnc where
+  minCode : Nat
+  encT : List Nat
+  decT : List Nat
+
+def offsetTableOK (E : OffsetEnc) : Bool :=
+  E.minCode < 256 && E.encT == (List.range 256).map (offsetEncode E.minCode) &&
+    E.decT == (List.range 256).map (offsetDecode E.minCode)
+
 end C06
